@@ -131,7 +131,7 @@ def plan_for(prop, tier, seed):
                 Lu = 2 if e_method == "ovl" else L
                 P.add(bw("unit", suffix="_e"), "E:m=%s,L=%d" % (e_method, Lu))
                 P.add(bw("bin", suffix="_e"), "E:m=%s,L=%d" % (e_method, Lu))
-                P.add(cw("tokyo", suffix="_e"), "E:m=%s,L=%d" % (e_method, 3))
+                P.add(cw("thai", suffix="_e"), "E:m=%s,L=%d" % (e_method, 2))   # char-wise E stays at 2 chars (3 chars: > 24 GB)
                 for pre in (("61", "62") if e_method == "ovl" else ("6162", "6263", "61")):
                     P.add(bw("find_reset", suffix="_p" + pre), "E:m=%s,L=2,pre=%s" % (e_method, pre))
 
@@ -175,7 +175,7 @@ def plan_for(prop, tier, seed):
             L = 2 if q else 4
             P.add(bw("hard_lm", kind, suffix="_e"), "E:m=lm,L=%d" % L)
             P.add(bw("hard_lm2", kind, suffix="_e"), "E:m=lm,L=%d" % L)
-            P.add(cw("w123", kind, suffix="_e"), "E:m=lm,L=%d" % (2 if q else 3))
+            P.add(cw("w123", kind, suffix="_e"), "E:m=lm,L=2")
             if not q:
                 P.add(bw("hard_lm", kind, suffix="_e3"), "E:m=lm,L=3")
             # concrete prefix + 2 symbolic tail bytes, for every proper prefix shape of interest
@@ -183,8 +183,8 @@ def plan_for(prop, tier, seed):
             for pre in pres:
                 P.add(bw("hard_lm", kind, suffix="_p" + pre), "E:m=lm,L=2,pre=" + pre)
             if not q:
-                P.add(cw("tokyo", kind, suffix="_e"), "E:m=lm,L=3")
-                P.add(cw("thai", kind, suffix="_e"), "E:m=lm,L=3")
+                P.add(cw("thai", kind, suffix="_e"), "E:m=lm,L=2")
+                P.add(cw("a4", kind, suffix="_e"), "E:m=lm,L=2")
 
     if prop == "C01":
         std_core(TSTD, "ovl")
@@ -268,9 +268,10 @@ def plan_for(prop, tier, seed):
         P.add(cw("w123", "longest", suffix="_e"), "E:m=lm,L=2")
         if not q:
             for m in ("ovl", "find", "nosuf"):
-                P.add(cw("tokyo", suffix="_e" + m), "E:m=%s,L=3" % m)
-                P.add(cw("thai", suffix="_e" + m), "E:m=%s,L=3" % m)
-            P.add(cw("thai", "longest", suffix="_e"), "E:m=lm,L=3")
+                P.add(cw("thai", suffix="_e" + m), "E:m=%s,L=2" % m)
+                P.add(cw("greek", suffix="_e" + m), "E:m=%s,L=2" % m)
+            P.add(cw("thai", "longest", suffix="_e"), "E:m=lm,L=2")
+            P.add(cw("w123", "first", suffix="_e"), "E:m=lm,L=2")
             P.add(cw("astral", suffix="_eovl"), "E:m=ovl,L=2")
         if not q:
             P.hand += ["u_map::new_bijective"]
